@@ -245,6 +245,33 @@ Theorem C01_construction_independent : forall file_of yaml_load before c after,
 Proof. exact construction_independent. Qed.
 Print Assumptions C01_construction_independent.
 
+(* the SAME objects (description dict / str / stream, Netlist object) handed to several constructions,
+   with (true) or without (false) the netlist, in any order: the constructor only reads its arguments, so
+   every construction returns what a fresh construction on the objects as the user made them returns -
+   whatever the constructor f computes - and the objects are afterwards what they were *)
+Theorem C01_session_fresh : forall A (f : die_input -> list Rect -> A) o steps,
+  session f o steps = map (fun b => f (o_desc o) (call_fixed o b)) steps.
+Proof. exact session_fresh. Qed.
+Print Assumptions C01_session_fresh.
+
+Theorem C01_session_objects_unchanged : forall o steps, objects_after o steps = o.
+Proof. exact session_objects_unchanged. Qed.
+Print Assumptions C01_session_objects_unchanged.
+
+(* Die(d) followed by Die(d, netlist) on the same d *)
+Theorem C01_session_second_use : forall A (f : die_input -> list Rect -> A) o b1 b2,
+  nth_error (session f o [b1; b2]) 1 = Some (f (o_desc o) (call_fixed o b2)).
+Proof. exact session_second_use. Qed.
+Print Assumptions C01_session_second_use.
+
+(* what the correspondence evaluates on such a history: every observed outcome agrees with the model on
+   the objects as the user made them *)
+Theorem C01_agree_steps_sound : forall o steps chks,
+  agree_steps (session (fun i fx => (i, fx)) o steps) chks = true ->
+  Forall2 (fun (b : bool) (chk : die_input -> list Rect -> bool) => chk (o_desc o) (call_fixed o b) = true) steps chks.
+Proof. exact agree_steps_sound. Qed.
+Print Assumptions C01_agree_steps_sound.
+
 (* the three readings of a str, in the order the code tries them *)
 Theorem C01_read_order : forall file_of yaml_load s,
   match string_die s with
